@@ -175,6 +175,7 @@ func strayPath(id int) string {
 type truth struct {
 	g      *dag.Graph
 	stored map[int]bool
+	known  map[int]bool // nodes of the store's graph (= stored unless the store was reopened: a reopened store knows what index.json reaches)
 	tags   map[int]int  // tag -> node
 	digidx map[int]bool // nodes whose digest is a reference of the store
 	strays map[int]bool
@@ -182,7 +183,7 @@ type truth struct {
 }
 
 func newTruth(g *dag.Graph) *truth {
-	return &truth{g: g, stored: map[int]bool{}, tags: map[int]int{}, digidx: map[int]bool{}, strays: map[int]bool{}, autogc: true}
+	return &truth{g: g, known: map[int]bool{}, stored: map[int]bool{}, tags: map[int]int{}, digidx: map[int]bool{}, strays: map[int]bool{}, autogc: true}
 }
 
 func (t *truth) tagged(n int) bool {
@@ -194,11 +195,11 @@ func (t *truth) tagged(n int) bool {
 	return false
 }
 
-// stored predecessors of n
+// predecessors of n among the nodes the store knows
 func (t *truth) preds(n int) []int {
 	var out []int
 	for _, p := range t.g.Preds(n) {
-		if t.stored[p] {
+		if t.known[p] {
 			out = append(out, p)
 		}
 	}
@@ -258,7 +259,7 @@ func (t *truth) gone(x int) map[int]bool {
 		changed = false
 		for _, n := range t.g.Nodes {
 			i := n.ID
-			if gone[i] || !t.stored[i] || t.tagged(i) {
+			if gone[i] || !t.known[i] || t.tagged(i) {
 				continue
 			}
 			ps := t.preds(i)
@@ -325,9 +326,9 @@ func (o *obs) String() string {
 			i = append(i, fmt.Sprintf("t%d>%d", t, n))
 		}
 	}
-	// digest-only references are deliberately not part of the compared observable: which
-	// live descriptors stay resolvable by digest after GC does not influence any later
-	// Delete/GC outcome (a live node that is also a candidate adds nothing to the graph)
+	for _, n := range o.digs {
+		i = append(i, fmt.Sprintf("d%d", n))
+	}
 	var p []string
 	var keys []int
 	for k := range o.preds {
@@ -554,6 +555,12 @@ func runCaseAttempt(g *dag.Graph, ops []op, seed uint64, attempt int) {
 				expStored[k] = true
 			}
 		}
+		expKnown := map[int]bool{}
+		for k, v := range tr.known {
+			if v {
+				expKnown[k] = true
+			}
+		}
 		expTags := map[int]int{}
 		for k, v := range tr.tags {
 			expTags[k] = v
@@ -579,6 +586,7 @@ func runCaseAttempt(g *dag.Graph, ops []op, seed uint64, attempt int) {
 				expRes = "exists"
 			} else {
 				expStored[o.N] = true
+				expKnown[o.N] = true
 				if n.IsManifest() {
 					expDig[o.N] = true
 				}
@@ -626,6 +634,14 @@ func runCaseAttempt(g *dag.Graph, ops []op, seed uint64, attempt int) {
 			}
 			tr.autogc = true
 			kind = "reopen"
+			// the reopened store knows what index.json reaches through stored content
+			expKnown = map[int]bool{}
+			for _, n := range tr.tags {
+				tr.closure(n, expKnown)
+			}
+			for n := range tr.digidx {
+				tr.closure(n, expKnown)
+			}
 		case 'D':
 			err, hung = w.guarded(func(c context.Context) error { return store.Delete(c, g.Nodes[o.N].Desc) })
 			kind = "delete"
@@ -642,7 +658,14 @@ func runCaseAttempt(g *dag.Graph, ops []op, seed uint64, attempt int) {
 				}
 				for k := range gone {
 					delete(expStored, k)
+					delete(expKnown, k)
 					delete(expDig, k)
+				}
+				if len(tr.known) != len(tr.stored) {
+					// after a reopen at an arbitrary point the graph is smaller than the storage:
+					// Delete is judged against the graph (C09_delete_exact), blobs the store does
+					// not know are outside C09's quantifier (they wait for GC)
+					run.Count("unjudged:delete-with-blobs-unknown-to-the-graph")
 				}
 				for t, n := range tr.tags {
 					if n == o.N {
@@ -659,6 +682,10 @@ func runCaseAttempt(g *dag.Graph, ops []op, seed uint64, attempt int) {
 					delete(expStored, k)
 					nontrivial = true
 				}
+			}
+			expKnown = map[int]bool{}
+			for k := range expStored {
+				expKnown[k] = true
 			}
 			for k := range expDig {
 				if !tr.tagged(k) && !kept[k] && !(keepLiveDigests && live[k]) {
@@ -741,9 +768,20 @@ func runCaseAttempt(g *dag.Graph, ops []op, seed uint64, attempt int) {
 			fail(kind+"-strays", fmt.Sprintf("op %d (%s): stray files %v, expected %v", oi, o, ob.strays, wantStrays))
 			failed = true
 		}
-		// predecessor relation: exactly the stored nodes that list n
+		// digest-only references (which ones GC keeps is the probed parameter kl)
+		var wantDigs []int
+		for _, n := range g.Nodes {
+			if expDig[n.ID] && n.Desc.MediaType != "application/octet-stream" {
+				wantDigs = append(wantDigs, n.ID)
+			}
+		}
+		if joinInts(wantDigs) != joinInts(ob.digs) {
+			fail(kind+"-digest-index", fmt.Sprintf("op %d (%s): digest references %v, expected %v", oi, o, ob.digs, wantDigs))
+			failed = true
+		}
+		// predecessor relation: exactly the nodes of the store's graph that list n
 		if !failed {
-			tr.stored = expStored
+			tr.stored, tr.known = expStored, expKnown
 			for _, n := range g.Nodes {
 				want := tr.preds(n.ID)
 				if joinInts(want) != joinInts(ob.preds[n.ID]) {
@@ -764,7 +802,7 @@ func runCaseAttempt(g *dag.Graph, ops []op, seed uint64, attempt int) {
 				continue
 			}
 			for _, p := range g.Preds(y) {
-				if expStored[p] && lists(g, p, y) {
+				if expKnown[p] && lists(g, p, y) {
 					fail("delete-removed-linked", fmt.Sprintf("op %d (%s): node %d was removed although surviving node %d lists it", oi, o, y, p))
 					failed = true
 				}
@@ -773,7 +811,7 @@ func runCaseAttempt(g *dag.Graph, ops []op, seed uint64, attempt int) {
 		if failed {
 			continue
 		}
-		tr.stored, tr.tags, tr.digidx, tr.strays = expStored, expTags, expDig, expStrays
+		tr.stored, tr.known, tr.tags, tr.digidx, tr.strays = expStored, expKnown, expTags, expDig, expStrays
 	}
 	in := modelInput(g, ops, seed)
 	run.Case(id, in, strings.Join(out, " "))
@@ -968,7 +1006,16 @@ func genCase(r *common.Rand) (*dag.Graph, []op) {
 	if r.Chance(1, 4) {
 		common.Shuffle(r, order)
 	}
-	for _, n := range order {
+	// sometimes the store is reopened in the middle of the pushes: blobs pushed before and
+	// not yet referenced by an indexed manifest are then unknown to the new store's graph
+	restartAt := -1
+	if keepLiveDigests && r.Chance(1, 6) {
+		restartAt = r.Intn(len(order) + 1)
+	}
+	for i, n := range order {
+		if i == restartAt {
+			ops = append(ops, op{K: 'R'})
+		}
 		if r.Chance(1, 12) {
 			continue
 		}
@@ -1028,6 +1075,10 @@ func genCase(r *common.Rand) (*dag.Graph, []op) {
 			ops = append(ops, op{K: 'S', N: r.Intn(12)})
 		default:
 			ops = append(ops, op{K: 'A', N: r.Intn(2)})
+		}
+		if keepLiveDigests && r.Chance(1, 12) {
+			// reopen at an arbitrary point (index.json is kept current by AutoSaveIndex)
+			ops = append(ops, op{K: 'R'})
 		}
 	}
 	if r.Chance(1, 2) {
